@@ -20,7 +20,7 @@ let parse_tree (s : string) : port list = fst (parse_ports (String.split_on_char
 let show_id (id : nat list) = String.concat "." (List.map (fun n -> string_of_int (int_of_nat n)) id)
 let show_ares = function
   | ANull -> "-" | AFound id -> show_id id | ACrash -> "CRASH" | AUnsupported -> "UNSUP"
-let show_entry (e : entry) =
+let show_entry (e : hit) =
   Printf.sprintf "%s:%d:%s"
     (match e.e_name with Some n -> hex_of_bytes n | None -> "NULL")
     (int_of_z e.e_len)
